@@ -941,4 +941,278 @@ theorem selHash_none {pool : Pool} (h : selHash pool = .none) : ∀ p ∈ pool, 
 theorem selHash_noPanic (pool : Pool) : (selHash pool).isPanic = false := by
   rcases selHash_hashPick pool with ⟨h, _⟩ | ⟨j, u, h, _⟩ <;> rw [h] <;> rfl
 
+/-! ### which loops can panic -/
+
+theorem selFirst_noPanic (pool : Pool) : (selFirst pool).isPanic = false := by
+  unfold selFirst
+  rcases firstGo_spec pool [] with ⟨h, _⟩ | ⟨i, h, _⟩ <;> simp at h <;> rw [h] <;> rfl
+
+theorem rrGo_noPanic (pool : Pool) (hn : 0 < pool.length) : ∀ (fuel c : Nat), (rrGo pool fuel c).1.isPanic = false
+  | 0, c => rfl
+  | fuel + 1, c => by
+    unfold rrGo
+    split
+    · split
+      · rfl
+      · exact rrGo_noPanic pool hn fuel _
+    · rename_i hnone
+      have := List.getElem?_eq_none_iff.1 hnone
+      have := Nat.mod_lt (inc32 c) hn
+      omega
+
+theorem selRR_noPanic (pool : Pool) (c : Nat) : (selRR pool c).1.isPanic = false := by
+  unfold selRR
+  split
+  · rfl
+  · exact rrGo_noPanic pool (by omega) _ _
+
+theorem rndGo_noPanic : ∀ (rest : Pool) (i : Nat) (best : Res) (count : Nat) (ds : List Nat),
+    best.isPanic = false → (rndGo rest i best count ds).1.isPanic = false
+  | [], _, _, _, _, h => by simpa [rndGo] using h
+  | u :: rest, i, best, count, ds, h => by
+    unfold rndGo
+    split
+    · split
+      · rfl
+      · split
+        · exact rndGo_noPanic rest _ _ _ _ rfl
+        · exact rndGo_noPanic rest _ _ _ _ h
+    · exact rndGo_noPanic rest _ _ _ _ h
+
+theorem selLeastConn_post (pool : Pool) (ds : List Nat) : LcPost pool (selLeastConn pool ds).1 := by
+  have := lcGo_spec pool [] .none 0 none ds (Or.inl ⟨rfl, rfl, by simp⟩)
+  simpa [selLeastConn] using this
+
+/-! ### weighted round robin when nothing is wrong: every upstream owns its share of the cycle -/
+
+theorem wrrCollect_some (ws : List Nat) (cap : Nat) : ∀ (rest pre : Pool) (acc : List Nat),
+    (pre ++ rest).length ≤ ws.length → wrrCollect ws cap rest pre.length acc ≠ none
+  | [], pre, acc, _ => by simp [wrrCollect]
+  | u :: rest, pre, acc, h => by
+    have hrec : ∀ acc', wrrCollect ws cap rest (pre.length + 1) acc' ≠ none := by
+      intro acc'
+      have := wrrCollect_some ws cap rest (pre ++ [u]) acc'
+      rw [snoc_append, snoc_length] at this
+      exact this h
+    unfold wrrCollect
+    split
+    · split
+      · rename_i hnone
+        have := List.getElem?_eq_none_iff.1 hnone
+        simp at h
+        omega
+      · split
+        · exact hrec _
+        · split
+          · simp
+          · exact hrec _
+    · exact hrec _
+
+theorem wrrPick_noPanic (idx : Nat) (ups : List Nat) : (wrrPick idx ups).isPanic = false := by
+  unfold wrrPick
+  split
+  · rfl
+  · rename_i h
+    split
+    · rfl
+    · rename_i hnone
+      have := List.getElem?_eq_none_iff.1 hnone
+      have := Nat.mod_lt idx (show 0 < ups.length by omega)
+      omega
+
+theorem selWRR_noPanic {ws : List Nat} {pool : Pool} (c : Nat) (h : wrrOK pool ws = true) :
+    (selWRR ws pool c).1.isPanic = false := by
+  unfold selWRR
+  split
+  · rfl
+  · split
+    · exact selFirst_noPanic pool
+    · rename_i h2
+      simp [wrrOK, h2] at h
+      split
+      · omega
+      · split
+        · rename_i hnone
+          exact absurd hnone (wrrCollect_some ws _ pool [] [] (by simpa using h.2))
+        · exact wrrPick_noPanic _ _
+
+/-- the candidate list is not empty as soon as an available upstream with a positive weight exists -/
+theorem wrrCollect_nonempty (ws : List Nat) (cap : Nat) : ∀ (rest pre : Pool) (acc ups : List Nat),
+    wrrCollect ws cap rest pre.length acc = some ups →
+    (acc ≠ [] ∨ ∃ k u w, rest[k]? = some u ∧ u.avail = true ∧ ws[pre.length + k]? = some w ∧ 0 < w) → ups ≠ []
+  | [], pre, acc, ups, h, hex => by
+    simp [wrrCollect] at h
+    subst h
+    rcases hex with h | ⟨k, u, w, h, _⟩
+    · exact h
+    · simp at h
+  | u :: rest, pre, acc, ups, h, hex => by
+    have hrec : ∀ acc', wrrCollect ws cap rest (pre.length + 1) acc' = some ups →
+        (acc' ≠ [] ∨ ∃ k u w, rest[k]? = some u ∧ u.avail = true ∧ ws[pre.length + 1 + k]? = some w ∧ 0 < w) → ups ≠ [] := by
+      intro acc'
+      have := wrrCollect_nonempty ws cap rest (pre ++ [u]) acc' ups
+      rw [snoc_length] at this
+      exact this
+    -- the witness is either `u` itself or further down
+    have hshift : ∀ (hu : ¬(u.avail = true ∧ ∃ w, ws[pre.length]? = some w ∧ 0 < w)),
+        (acc ≠ [] ∨ ∃ k u w, rest[k]? = some u ∧ u.avail = true ∧ ws[pre.length + 1 + k]? = some w ∧ 0 < w) := by
+      intro hu
+      rcases hex with h | ⟨k, x, w, h1, h2, h3, h4⟩
+      · exact Or.inl h
+      · cases k with
+        | zero =>
+          simp at h1
+          subst h1
+          exact absurd ⟨h2, w, by simpa using h3, h4⟩ hu
+        | succ k =>
+          refine Or.inr ⟨k, x, w, by simpa using h1, h2, ?_, h4⟩
+          rw [← h3]; congr 1; omega
+    unfold wrrCollect at h
+    split at h
+    · rename_i hav
+      split at h
+      · cases h
+      · rename_i w hw
+        split at h
+        · rename_i hw0
+          exact hrec acc h (hshift (by rintro ⟨_, w', hw', hpos⟩; rw [hw] at hw'; cases hw'; omega))
+        · split at h
+          · cases h; simp
+          · exact hrec _ h (Or.inl (by simp))
+    · rename_i hav
+      exact hrec acc h (hshift (by rintro ⟨h1, _⟩; exact hav h1))
+
+theorem wrrPick_live {idx : Nat} {ups : List Nat} (h : ups ≠ []) : ∃ i, wrrPick idx ups = .sel i := by
+  have hlen : 0 < ups.length := List.length_pos_iff.2 h
+  unfold wrrPick
+  rw [if_neg (by omega)]
+  have := Nat.mod_lt idx hlen
+  cases hh : ups[idx % ups.length]? with
+  | some i => exact ⟨i, rfl⟩
+  | none => have := List.getElem?_eq_none_iff.1 hh; omega
+
+/-- the pool index owning position `cw` of the weight cycle: the `i` with
+    `tot + w₀ + … + w_{i-1} ≤ cw < tot + w₀ + … + w_i` -/
+def ownerGo : List Nat → Nat → Nat → Nat → Option Nat
+  | [], _, _, _ => none
+  | w :: ws, i, tot, cw => if cw < tot + w then some i else ownerGo ws (i + 1) (tot + w) cw
+
+/-- pool indices (from `i0`) of the positive weights -/
+def posIdxFrom : Nat → List Nat → List Nat
+  | _, [] => []
+  | i, w :: ws => if 0 < w then i :: posIdxFrom (i + 1) ws else posIdxFrom (i + 1) ws
+
+theorem posIdxFrom_length : ∀ (i : Nat) (ws : List Nat), (posIdxFrom i ws).length = (posWeights ws).length
+  | _, [] => rfl
+  | i, w :: ws => by
+    unfold posIdxFrom posWeights
+    by_cases h : 0 < w
+    · simp [h]
+      have := posIdxFrom_length (i + 1) ws
+      simpa [posWeights] using this
+    · simp [h]
+      have := posIdxFrom_length (i + 1) ws
+      simpa [posWeights] using this
+
+theorem ownerGo_spec : ∀ (ws : List Nat) (i0 tot cw i : Nat), tot ≤ cw → ownerGo ws i0 tot cw = some i →
+    ∃ k w, i = i0 + k ∧ ws[k]? = some w ∧ tot + (ws.take k).sum ≤ cw ∧ cw < tot + (ws.take k).sum + w
+  | [], _, _, _, _, _, h => by simp [ownerGo] at h
+  | w :: ws, i0, tot, cw, i, hle, h => by
+    unfold ownerGo at h
+    split at h
+    · cases h
+      exact ⟨0, w, rfl, rfl, by simpa using hle, by simpa using ‹cw < tot + w›⟩
+    · obtain ⟨k, w', h1, h2, h3, h4⟩ := ownerGo_spec ws (i0 + 1) (tot + w) cw i (by omega) h
+      refine ⟨k + 1, w', by omega, by simpa using h2, ?_, ?_⟩
+      · simp [List.take_succ_cons, List.sum_cons]; omega
+      · simp [List.take_succ_cons, List.sum_cons]; omega
+
+theorem ownerGo_some : ∀ (ws : List Nat) (i0 tot cw : Nat), tot ≤ cw → cw < tot + ws.sum →
+    ∃ i, ownerGo ws i0 tot cw = some i
+  | [], _, _, _, h0, h => by simp at h; omega
+  | w :: ws, i0, tot, cw, h0, h => by
+    unfold ownerGo
+    split
+    · exact ⟨i0, rfl⟩
+    · exact ownerGo_some ws (i0 + 1) (tot + w) cw (by omega) (by simp [List.sum_cons] at h; omega)
+
+/-- the index computed on the filtered weights, looked up in the list of positive-weight
+    positions, is the owner computed on the unfiltered weights -/
+theorem wrrIndexGo_owner : ∀ (ws : List Nat) (i0 b0 tot cw : Nat), tot ≤ cw → cw < tot + ws.sum →
+    b0 ≤ wrrIndexGo (posWeights ws) b0 tot cw ∧
+    (posIdxFrom i0 ws)[wrrIndexGo (posWeights ws) b0 tot cw - b0]? = ownerGo ws i0 tot cw
+  | [], _, _, _, _, h1, h2 => by simp at h2; omega
+  | w :: ws, i0, b0, tot, cw, h1, h2 => by
+    by_cases hw : 0 < w
+    · have hp : posWeights (w :: ws) = w :: posWeights ws := by simp [posWeights, hw]
+      rw [hp]
+      unfold wrrIndexGo ownerGo posIdxFrom
+      rw [if_pos hw]
+      by_cases hc : cw < tot + w
+      · simp [hc]
+      · rw [if_neg hc, if_neg hc]
+        obtain ⟨ih1, ih2⟩ := wrrIndexGo_owner ws (i0 + 1) (b0 + 1) (tot + w) cw (by omega)
+          (by simp [List.sum_cons] at h2; omega)
+        refine ⟨by omega, ?_⟩
+        rw [← ih2]
+        have : wrrIndexGo (posWeights ws) (b0 + 1) (tot + w) cw - b0
+            = (wrrIndexGo (posWeights ws) (b0 + 1) (tot + w) cw - (b0 + 1)) + 1 := by omega
+        rw [this, List.getElem?_cons_succ]
+    · have hw0 : w = 0 := by omega
+      subst hw0
+      have hp : posWeights (0 :: ws) = posWeights ws := by simp [posWeights]
+      rw [hp]
+      unfold ownerGo posIdxFrom
+      rw [if_neg (by omega), if_neg (by omega)]
+      have := wrrIndexGo_owner ws (i0 + 1) b0 tot cw h1 (by simpa [List.sum_cons] using h2)
+      simpa using this
+
+/-- with every upstream available and one weight per upstream, the candidates are exactly
+    the positions with a positive weight -/
+theorem wrrCollect_all (ws : List Nat) (cap : Nat) : ∀ (rest pre : Pool) (wsp wsr : List Nat) (acc : List Nat),
+    ws = wsp ++ wsr → wsp.length = pre.length → rest.length = wsr.length → (∀ v ∈ rest, v.avail = true) →
+    acc.length + (posWeights wsr).length = cap →
+    wrrCollect ws cap rest pre.length acc = some (acc ++ posIdxFrom pre.length wsr)
+  | [], pre, wsp, wsr, acc, _, _, h3, _, _ => by
+    have : wsr = [] := List.length_eq_zero_iff.1 (by simpa using h3.symm)
+    subst this
+    simp [wrrCollect, posIdxFrom]
+  | u :: rest, pre, wsp, [], acc, _, _, h3, _, _ => by simp at h3
+  | u :: rest, pre, wsp, w :: wsr, acc, h1, h2, h3, h4, h5 => by
+    have hu : u.avail = true := h4 u (List.mem_cons_self ..)
+    have hget : ws[pre.length]? = some w := by rw [h1, ← h2]; simp
+    have hrec : ∀ acc', acc'.length + (posWeights wsr).length = cap →
+        wrrCollect ws cap rest (pre.length + 1) acc' = some (acc' ++ posIdxFrom (pre.length + 1) wsr) := by
+      intro acc' hcap
+      have := wrrCollect_all ws cap rest (pre ++ [u]) (wsp ++ [w]) wsr acc'
+      rw [snoc_length] at this
+      exact this (by simp [h1]) (by simp [h2]) (by simpa using h3) (fun v hv => h4 v (List.mem_cons_of_mem _ hv)) hcap
+    unfold wrrCollect
+    rw [if_pos hu, hget]
+    simp only
+    by_cases hw : w = 0
+    · subst hw
+      rw [if_pos rfl]
+      have hp : posWeights (0 :: wsr) = posWeights wsr := by simp [posWeights]
+      rw [hp] at h5
+      rw [hrec acc h5]
+      simp [posIdxFrom]
+    · rw [if_neg hw]
+      have hp : posWeights (w :: wsr) = w :: posWeights wsr := by
+        have : 0 < w := by omega
+        simp [posWeights, this]
+      rw [hp] at h5
+      simp at h5
+      have hpi : posIdxFrom pre.length (w :: wsr) = pre.length :: posIdxFrom (pre.length + 1) wsr := by
+        have : 0 < w := by omega
+        simp [posIdxFrom, this]
+      rw [hpi]
+      split
+      · rename_i hcap
+        have : (posIdxFrom (pre.length + 1) wsr).length = 0 := by
+          rw [posIdxFrom_length]; omega
+        rw [List.length_eq_zero_iff.1 this]
+      · rw [hrec (acc ++ [pre.length]) (by simp; omega)]
+        simp
+
 end CaddyModel.C08
